@@ -1,16 +1,17 @@
 ---------------------------- MODULE EnterLeave ----------------------------
 (***************************************************************************)
 (* C20, enterleavesensorpb.Model: two counters, enter total and leave     *)
-(* total, each optional ([has, v]).  An event in direction ENTER (LEAVE)  *)
-(* advances the enter (leave) total by one; a total supplied with the     *)
-(* event that differs from the current one replaces it; ResetTotals sets  *)
-(* both to zero.  After any event both totals are present (an absent      *)
-(* total counts as zero).                                                 *)
-(*                                                                         *)
-(* Not settled by the property text: an ENTER (LEAVE) event that supplies *)
-(* a total EQUAL to the current one -- "supplied totals win" says it      *)
-(* stays, the counter rule says it advances (the implementation advances).*)
-(* Modelled after the implementation, not asserted (Settled).             *)
+(* total, each optional ([has, v]; an absent total counts as zero).       *)
+(* CreateEnterLeaveEvent's doc comment gives the rules by which an event  *)
+(* [direction, enter total?, leave total?] adjusts them; per counter (the *)
+(* enter total counts ENTER events, the leave total LEAVE events):        *)
+(*   R1  the event brings no total (nil)            -> counted: the total *)
+(*       advances by one iff the direction is the counter's own;          *)
+(*   R2  the event brings the CURRENT total (a device that builds the     *)
+(*       next event from the last one it read)      -> counted, like R1;  *)
+(*   R3  the event brings a total different from the current one          *)
+(*       -> that total is taken as it is, whatever the direction.         *)
+(* After any event both totals are present.  ResetTotals zeroes both.     *)
 (***************************************************************************)
 EXTENDS Integers, Sequences
 
@@ -18,10 +19,12 @@ None == [has |-> FALSE, v |-> 0]
 Some(x) == [has |-> TRUE, v |-> x]
 Cur(t) == IF t.has THEN t.v ELSE 0
 
+Counted(cur, counts) == Some(Cur(cur) + (IF counts THEN 1 ELSE 0))
+Rule(supplied, cur) == IF ~supplied.has THEN "R1-no-total" ELSE IF supplied.v = Cur(cur) THEN "R2-current-total" ELSE "R3-new-total"
 Adjust(supplied, cur, counts) ==
-  IF supplied.has /\ supplied.v # Cur(cur) THEN Some(supplied.v)
-  ELSE Some(Cur(cur) + (IF counts THEN 1 ELSE 0))
-Settled(supplied, cur, counts) == ~(supplied.has /\ supplied.v = Cur(cur) /\ counts)
+  CASE Rule(supplied, cur) = "R1-no-total" -> Counted(cur, counts)
+    [] Rule(supplied, cur) = "R2-current-total" -> Counted(cur, counts)
+    [] Rule(supplied, cur) = "R3-new-total" -> Some(supplied.v)
 
 \* dir \in {"ENTER", "LEAVE", "DIRECTION_UNSPECIFIED"}; se, sl = totals supplied with the event
 Event(st, dir, se, sl) == [enter |-> Adjust(se, st.enter, dir = "ENTER"), leave |-> Adjust(sl, st.leave, dir = "LEAVE")]
